@@ -56,6 +56,12 @@ def check(ctx):
         g = ppgen.Gen(r, includes=False)
         srcs.append(("pp", ppgen.render(g.program())["top.sv"]))
     srcs += [("lib", "library l \"*.v\" -incdir \"a\", b;\ninclude \"x\";\nconfig c; design d; default liblist a b; endconfig\n")]
+    # keyword regions of every version, with comments and kept directives right after directives (white space is lexed in
+    # two modes at those positions: the extra memo key in_directive matters there)
+    for spec in ["1364-1995", "1364-2001", "1364-2001-noconfig", "1364-2005", "1800-2005", "1800-2009", "1800-2012", "1800-2017"]:
+        srcs.append(("sv", "`begin_keywords \"%s\" // comment\n`default_nettype none /* c */\n`timescale 1ns/1ps\n// c\nmodule m; wire x; // d\n"
+                           "`celldefine\n/* e */ endmodule\n`end_keywords // f\n/* g */\nmodule n; endmodule\n" % spec))
+        srcs.append(("sv", "`begin_keywords \"%s\"\n\n  `pragma foo\n// c\nmodule m; endmodule `end_keywords\n" % spec))
     c2, meta = [], {}
     for i, (k, s) in enumerate(srcs):
         small = len(s) <= 120 or k == "pp"
